@@ -479,6 +479,9 @@ func (g *gen) objArray() []interface{} {
 	n := g.r.intn(5)
 	if g.r.chance(8) {
 		n = 14 + g.r.intn(10)
+		if g.r.chance(40) {
+			n = sizeLadder[g.r.intn(len(sizeLadder))] // around the thresholds at which an algorithm might switch
+		}
 	}
 	out := []interface{}{}
 	strKeys := g.r.chance(40)
@@ -500,6 +503,9 @@ func (g *gen) objArray() []interface{} {
 	}
 	return out
 }
+
+// sizes around the thresholds at which an implementation might switch algorithm or buffer
+var sizeLadder = []int{31, 32, 33, 47, 48, 49, 63, 64, 65, 99, 100, 101, 127, 128, 129, 200, 255, 256, 257, 500, 511, 512, 513, 1000, 1023, 1024, 1025}
 
 var cmpOps = []string{"==", "!=", "<", "<=", ">", ">=", "||", "&&"}
 
